@@ -704,6 +704,11 @@ fn codegen_op_http_call(op: &Operation) {
 
         g!("let mut resp = Self::serialize_http(s3_resp.output)?;");
 
+        // `S3Response::status` overrides the status code implied by the output
+        g!("if let Some(status) = s3_resp.status {{");
+        g!("    resp.status = status;");
+        g!("}}");
+
         if op.name == "GetObject" {
             g!("resp.headers.extend(overridden_headers);");
             g!("super::get_object::merge_custom_headers(&mut resp, s3_resp.headers);");
